@@ -1,6 +1,199 @@
+import Proofs.C01.Ladders
+import Proofs.C01.Arith
+import Proofs.C01.JacRefine
+import Proofs.C01.JacMult
 /-!
-# C01 — property theorems only (see DESIGN.md §3 C01).
+# C01 — curve and field arithmetic compute exactly the group law (DESIGN.md §3 C01)
+
+Property theorems only.  Layout of the argument:
+
+* T1 (`add_jac_refines` …, proved in `Proofs/C01/JacRefine.lean`): btclib's branch-free Jacobian formulas over
+  `Int` with Python's `%` (`Model/Common/EC.lean`, tied to the code by the exhaustive `jac.*` streams) compute
+  the group law of Mathlib's elliptic-curve point group over `ZMod p`.
+* T2 the integer recodings are exact for ALL `m`, `w`, digit counts.
+* T3–T6 every ladder of `Model/C01/Ladders.lean` (tied to the private functions by exact-Jacobian streams),
+  written once over `JacOps`, returns `m • P` / `Σ uᵢ • Pᵢ` under the hypothesis `JacRel` — the operations
+  represent an additive commutative group — which is what T1 establishes for btclib's formulas.
+* T7 GLV identities on the GENERATED secp256k1 constants.  T9 the modular inverse.
 -/
 namespace Props.C01
+open Btc.C01 Btc.EC
+
+/-! ## T1 — the Jacobian formulas are the group law (re-exported from Proofs/C01/JacRefine.lean) -/
+section T1
+variable {p : ℕ} [Fact p.Prime] {c : CurveGroup} (hp : c.p = (p : ℤ))
+include hp
+
+/-- `add_jac`, every case: stand-ins for infinity (any `Z = 0` triple, `INFJ` and `(5,0,0)` included, so
+p ∈ {5,7} too), equal x with equal / opposite y, generic chord -/
+theorem add_jac_refines (Q R : JacPoint) (hQ : JValid p c Q) (hR : JValid p c R) :
+    JValid p c (addJac c Q R) ∧ absJ p c (addJac c Q R) = absJ p c Q + absJ p c R :=
+  ⟨addJac_valid hp Q R hQ hR, addJac_refines hp Q R hQ hR⟩
+
+theorem add_jac_aff_refines (Q : JacPoint) (R : Point) (hQ : JValid p c Q) (hR : AValid p c R) :
+    JValid p c (addJacAff c Q R) ∧ absJ p c (addJacAff c Q R) = absJ p c Q + absA p c R :=
+  ⟨addJacAff_valid hp Q R hQ hR, addJacAff_refines hp Q R hQ hR⟩
+
+/-- `double_jac`, all three spellings of `a·Z⁴` (the model selects them as the constructor does) -/
+theorem double_jac_refines (Q : JacPoint) (hQ : JValid p c Q) :
+    JValid p c (doubleJac c Q) ∧ absJ p c (doubleJac c Q) = absJ p c Q + absJ p c Q :=
+  ⟨doubleJac_valid hp Q hQ, doubleJac_refines hp Q hQ⟩
+
+theorem negate_jac_refines (Q : JacPoint) (hQ : JValid p c Q) :
+    JValid p c (negateJac c Q) ∧ absJ p c (negateJac c Q) = -absJ p c Q :=
+  ⟨negateJac_valid hp Q hQ, negateJac_refines hp Q hQ⟩
+end T1
+
+/-- T8 for the shared reference multiplication every scheme-level driver runs (`Btc.EC.mult`):
+`mult m Q = (m mod n) • Q` in Mathlib's point group, every integer `m`, every valid `Q` incl. infinity -/
+theorem ec_mult_refines {p : ℕ} [Fact p.Prime] (C : Curve) (hC : C.p = (p : ℤ)) (h2 : NoTwoTorsion p C.toCurveGroup)
+    (m : ℤ) (Q : Point) (hQ : AValid p C.toCurveGroup Q) :
+    ∃ A : Point, mult C m Q = some A ∧ AValid p C.toCurveGroup A ∧
+      absA p C.toCurveGroup A = (m % C.n).toNat • absA p C.toCurveGroup Q :=
+  mult_refines C hC h2 m Q hQ
+
+/-! ## T2 — recodings -/
+
+/-- `signed_odd_digits(m, w, size)`: whenever it answers, `Σ dᵢ·2^(w·i) = m`, every digit is odd with
+`|dᵢ| < 2^w`, there are exactly `size` of them; for ALL `m`, `w`, `size` -/
+theorem signed_odd_digits_sum {m : ℤ} {w size : Nat} {ds : List ℤ} (h : signedOddDigits m w size = some ds) :
+    evalLE w ds = m ∧ (∀ d ∈ ds, d % 2 = 1 ∧ -(2 : ℤ) ^ w < d ∧ d < (2 : ℤ) ^ w) ∧ ds.length = size := by
+  obtain ⟨hev, hgood, _⟩ := signedOddDigits_spec h
+  obtain ⟨_, _, _, hs, _, hdig⟩ := signedOddDigits_some h
+  exact ⟨hev, hgood, by rw [hdig, sodLoop_length]; omega⟩
+
+example : signedOddDigits 11 2 3 = some [-1, -1, 1] := by decide
+
+/-- the recoding loop sums back to `m` for EVERY integer `m` (odd or not, fitting or not) -/
+theorem signed_odd_digits_loop_sum (w k : Nat) (m : ℤ) : evalLE w (sodLoop w k m) = m := sodLoop_eval w k m
+
+/-- `_wNAF_of_m(m, w)`: `Σ dᵢ·2ⁱ = m`; digits zero or odd with `|dᵢ| < 2^(w-1)` (`{0, ±1}` for `w = 1`) -/
+theorem wnaf_sum (w : Nat) (hw : 1 ≤ w) (m : Nat) :
+    evalLE 1 (wnaf w m) = m ∧ ∀ d ∈ wnaf w m, NafDigit w d := wnaf_spec w hw m
+
+example : wnaf 3 7 = [-1, 0, 0, 1] := by decide
+
+/-- `_convert_number_to_base(m, b)`: the digits are base-`b` digits of `m` -/
+theorem base_digits (b m : Nat) (hb : 2 ≤ b) : evalMSB b 0 (toBase b m) = m ∧ ∀ d ∈ toBase b m, d < b :=
+  ⟨toBase_eval b m hb, toBase_lt b m hb⟩
+
+/-! ## T3 — one theorem per ladder, generic over the curve -/
+section Ladders
+variable {α β G : Type} [AddCommGroup G] {o : JacOps α β} (L : JacRel o G)
+
+theorem mult_recursive_jac (m : Nat) {Q : α} {g : G} (hQ : L.R Q g) :
+    L.R (multRecursiveJac o m Q) ((m : ℤ) • g) := multRecursiveJac_spec L m hQ
+
+theorem mult_jac_var (m : Nat) {Q : α} {g : G} (hQ : L.R Q g) :
+    L.R (multJacVar o m Q) ((m : ℤ) • g) := multJacVar_spec L m hQ
+
+theorem mult_mont_ladder (m : Nat) {Q : α} {g : G} (hQ : L.R Q g) :
+    L.R (multMontLadder o m Q) ((m : ℤ) • g) := multMontLadder_spec L m hQ
+
+theorem mult_base_3 (m : Nat) {Q : α} {g : G} (hQ : L.R Q g) :
+    L.R (multBase3 o m Q) ((m : ℤ) • g) := multBase3_spec L m hQ
+
+/-- `_mult_regular_window(m, Q, ec, w)`: every `m ≥ 0` (even, zero, above `scalar_len` bits: the `m|1`
+recoding and the final `+(-Q)` correction included), every `w ≥ 1`, every point incl. infinity -/
+theorem mult_regular_window (scalarLen m w : Nat) {Q r : α} {g : G} (hQ : L.R Q g)
+    (h : multRegularWindow o scalarLen m Q w = some r) : L.R r ((m : ℤ) • g) :=
+  multRegularWindow_spec L scalarLen m w hQ h
+
+/-- `_mult(m, Q, ec)`: the regular window at the GENERATED width `_MULT_W` -/
+theorem mult_generated_width (scalarLen m : Nat) {Q r : α} {g : G} (hQ : L.R Q g)
+    (h : multRegularWindow o scalarLen m Q Gen.Curves.MULT_W = some r) : L.R r ((m : ℤ) • g) :=
+  multRegularWindow_spec L scalarLen m _ hQ h
+
+/-- `_mult_fixed_base(m, Q, ec, w)` (what `mult(m, G)` runs, at the generated `_FIXED_BASE_W`): any blind -/
+theorem mult_fixed_base (scalarLen m w : Nat) {lam : ℤ} (hlam : L.blindOk lam) {Q r : α} {g : G} (hQ : L.R Q g)
+    (h : multFixedBase o scalarLen lam m Q w = some r) : L.R r ((m : ℤ) • g) :=
+  multFixedBase_spec L scalarLen m w hlam hQ h
+
+/-! ## T4, T5, T6 — multi-scalar -/
+
+/-- `_multi_mult_w_NAF_var` / `_double_mult_w_NAF_var`: `Σ uᵢ • Pᵢ`, any list, any `w ≥ 1`, any fixed set -/
+theorem multi_mult_wnaf (isFixed : α → Bool) (fixedW w : Nat) (hfw : 1 ≤ fixedW) (scalars : List Nat)
+    (points : List α) (hpts : ∀ P ∈ points, ∃ g, L.R P g) {r : α}
+    (h : multiMultWNAF o isFixed fixedW scalars points w = some r) :
+    L.R r (tsum L (scalars.zip points)) := multiMultWNAF_spec L isFixed fixedW w hfw scalars points hpts h
+
+/-- Bos–Coster: `Σ uᵢ • Pᵢ` for ANY choice the heap makes (any tie-breaking) -/
+theorem bos_coster (hf : L.Functional) (sel : Select α) (hsel : SelectOk sel) (scalarLen multW : Nat)
+    (scalars : List Nat) (points : List α) (hpts : ∀ P ∈ points, ∃ g, L.R P g) {r : α}
+    (h : multiMultBosCoster o sel scalarLen multW scalars points = some r) :
+    L.R r (tsum L (scalars.zip points)) :=
+  multiMultBosCoster_spec L hf sel hsel scalarLen multW scalars points hpts h
+
+/-- dispatch irrelevance: `_multi_mult_var` at the GENERATED `BOS_COSTER_THRESHOLD` (proved for every threshold) -/
+theorem dispatch_irrelevant (hf : L.Functional) (sel : Select α) (hsel : SelectOk sel) (isFixed : α → Bool)
+    (fixedW scalarLen : Nat) (hfw : 1 ≤ fixedW) (scalars : List Nat) (points : List α)
+    (hpts : ∀ P ∈ points, ∃ g, L.R P g) {r : α}
+    (h : multiMultVar o sel isFixed fixedW scalarLen Gen.Curves.MULT_W Gen.Curves.MULTI_MULT_W
+      Gen.Curves.BOS_COSTER_THRESHOLD scalars points = some r) :
+    L.R r (tsum L (scalars.zip points)) :=
+  multiMultVar_spec L hf sel hsel isFixed fixedW scalarLen _ _ _ hfw scalars points hpts h
+end Ladders
+
+/-! ### non-vacuity: the hypothesis bundle is satisfiable (integers under addition) and the ladders answer -/
+
+def intOps : JacOps ℤ ℤ where
+  zero := 0
+  zeroAff := 0
+  add := (· + ·)
+  addAff := (· + ·)
+  dbl x := x + x
+  neg x := -x
+  negAff x := -x
+  jacFromAff x := x
+  toAff x := x
+  rescale _ x := x
+  endo x := x
+
+def intRel : JacRel intOps ℤ where
+  R x g := x = g
+  RA x g := x = g
+  blindOk _ := True
+  zero := rfl
+  zeroAff := rfl
+  add := by intro x y g h hx hy; subst hx; subst hy; rfl
+  addAff := by intro x y g h hx hy; subst hx; subst hy; rfl
+  dbl := by intro x g hx; subst hx; rfl
+  neg := by intro x g hx; subst hx; rfl
+  negAff := by intro x g hx; subst hx; rfl
+  jacFromAff := by intro x g hx; exact hx
+  toAff := by intro x g hx; exact hx
+  rescale := by intro l x g _ hx; exact hx
+
+example : intRel.Functional := by intro x g g' h h'; exact h.symm.trans h'
+example : multRegularWindow intOps 5 22 3 4 = some 66 := by decide
+example : multFixedBase intOps 5 1 22 3 2 = some 66 := by decide
+
+/-! ## T7 — GLV on the generated constants -/
+
+theorem glv_decomposition (m : ℤ) :
+    ((multiplierDecomposer m).1 + (multiplierDecomposer m).2 * Gen.Curves.glv_LAM - m) % Gen.Curves.glv_N = 0 :=
+  multiplierDecomposer_congr m
+
+theorem glv_constants :
+    Gen.Curves.glv_LAM ^ 3 % Gen.Curves.glv_N = 1 ∧ Gen.Curves.glv_BETA ^ 3 % Gen.Curves.secp256k1.p = 1 ∧
+    Gen.Curves.glv_LAM % Gen.Curves.glv_N ≠ 1 ∧ Gen.Curves.glv_BETA % Gen.Curves.secp256k1.p ≠ 1 ∧
+    Gen.Curves.glv_N = Gen.Curves.secp256k1.n := by
+  refine ⟨?_, ?_, glv_lam_ne_one, glv_beta_ne_one, glv_N_is_n⟩
+  · rw [pow_succ, pow_two]; exact glv_lam_cube
+  · rw [pow_succ, pow_two]; exact glv_beta_cube
+
+/-! ## T9 — number theory -/
+
+/-- `mod_inv_var(a, m)` (`pow(a, -1, m)`): what it returns is the inverse, every `a`, every `m` -/
+theorem mod_inv_sound (a m x : ℤ) (h : modInv a m = some x) : 0 ≤ x ∧ x < m ∧ a * x % m = 1 % m :=
+  modInv_sound a m x h
+
+/-- … and it answers whenever an inverse exists (re-exported from JacRefine: `gcd(a, n) = 1`) -/
+theorem mod_inv_complete {n : ℕ} (hn : 1 ≤ n) (a : ℤ) (hg : Int.gcd a n = 1) :
+    ∃ x, modInv a n = some x := by
+  obtain ⟨x, hx, _⟩ := Btc.C01.modInv_spec hn a hg
+  exact ⟨x, hx⟩
+
+example : modInv 3 7 = some 5 := by decide
 
 end Props.C01
